@@ -21,8 +21,10 @@ Rec == ndJsonDeserialize(IOEnv.TRACE)
 ToSetOf(s) == {s[i] : i \in 1..Len(s)}
 Kind(r, w) == IF w \in DOMAIN r.lex THEN r.lex[w] ELSE "?"
 
-\* operators the real lexer accepts (searched over the reference table of Lexer.tla and everything offered)
+\* operators the real lexer accepts: searched over the reference table of Lexer.tla, everything offered, and the probed candidate
+\* spellings (r.lexerOps: every probed word the lexer takes as SOME operator, e.g. a deprecated alias of one)
 LexerBang(r) == {w \in BangOp \cup UNION {ToSetOf(r.bangCtx[i].offered) : i \in 1..Len(r.bangCtx)} : Kind(r, "!" \o w) = "bang:" \o w}
+                \cup ToSetOf(r.lexerOps)
 
 Findings(r) ==
   \* every operator offered after "!" is lexed as exactly that operator
